@@ -66,7 +66,8 @@ Theorem C10_fuel : forall ts : list token, parse ts <> OutOfFuel.
 Proof. exact parse_never_out_of_fuel. Qed.
 Print Assumptions C10_fuel.
 
-(* Soundness on the expression core (token lists without newline, `[`, `{`, trailing comma and `;`):
+(* Soundness on the expression core (token lists without newline, trailing comma and `;`; list and
+   struct literals included):
    whatever the parser accepts is the print of a well-formed derivation tree of the documented
    grammar and the result is the documented tree of it — nothing outside the grammar is accepted or
    reinterpreted. *)
@@ -84,7 +85,7 @@ Proof. exact parse_characterised. Qed.
 Print Assumptions C10_characterised.
 
 (* NOT PROVED (partial): soundness for token lists with newlines (skipped inside argument lists,
-   conditionals and literals), trailing commas, list / struct literals and several statements.
+   conditionals and literals), trailing commas and several statements.
    There the correspondence check and the reference recogniser decide. *)
 Definition C10_full : Prop :=
   forall ts es, parse ts = Ok es [] ->
